@@ -2,7 +2,8 @@
 use super::big::{U256, U512};
 
 pub fn l() -> U256 {
-    U256::from_u64(1).shl(252).wrapping_add(&U256::from_dec("27742317777372353535851937790883648493"))
+    static L: std::sync::OnceLock<U256> = std::sync::OnceLock::new();
+    *L.get_or_init(|| U256::from_u64(1).shl(252).wrapping_add(&U256::from_dec("27742317777372353535851937790883648493")))
 }
 
 #[derive(Clone, Copy, PartialEq, Eq, Hash, Debug)]
@@ -21,7 +22,23 @@ impl Sc {
         Sc::from_u256(&U256::from_le(b))
     }
     pub fn from_bytes_mod_order_wide(b: &[u8; 64]) -> Sc {
-        Sc(U512::from_le(b).rem(&l()))
+        Sc::from_u512(&U512::from_le(b))
+    }
+    /// x mod l by folding with 2^256 = -16c (mod l), c = l - 2^252. Cross-checked against the
+    /// bitwise long division (`U512::rem`) by the self-test.
+    pub fn from_u512(x: &U512) -> Sc {
+        let c16 = l().wrapping_sub(&U256::ONE.shl(252)).shl(4); // 16c < 2^129
+        let lo0 = x.lo();
+        let n1 = c16.mul_wide(&x.hi()); // < 2^385 ; x = lo0 - n1
+        let lo1 = n1.lo();
+        let n2 = c16.mul_wide(&n1.hi()); // < 2^258 ; n1 = lo1 - n2
+        let lo2 = n2.lo();
+        let n3 = c16.mul_wide(&n2.hi()); // < 2^131 ; n2 = lo2 - n3
+        debug_assert!(n3.hi().is_zero());
+        // x = lo0 - lo1 + lo2 - n3
+        let pos = Sc::from_u256(&lo0).add(&Sc::from_u256(&lo2));
+        let neg = Sc::from_u256(&lo1).add(&Sc::from_u256(&n3.lo()));
+        pos.sub(&neg)
     }
     pub fn from_canonical(b: &[u8; 32]) -> Option<Sc> {
         let v = U256::from_le(b);
@@ -53,7 +70,7 @@ impl Sc {
         self.add(&o.neg())
     }
     pub fn mul(&self, o: &Sc) -> Sc {
-        Sc(self.0.mul_wide(&o.0).rem(&l()))
+        Sc::from_u512(&self.0.mul_wide(&o.0))
     }
     pub fn pow(&self, e: &U256) -> Sc {
         let mut r = Sc::ONE;
